@@ -67,25 +67,25 @@ type vfRunResult struct {
 }
 
 type vfReplayFile struct {
-	V          int          `json:"v"`
-	Property   string       `json:"property"`
-	RunProp    string       `json:"run_property"` // the driver that was running (monitors report under their own id)
-	Oracle     string       `json:"oracle"`
-	Key        string       `json:"key"`
-	Detail     string       `json:"detail"`
-	VerifSeed  uint64       `json:"verif_seed"`
-	RunIndex   uint64       `json:"run_index"`
-	Tier       string       `json:"tier"`
-	Variant    string       `json:"variant"`
-	CryptoSeed uint64       `json:"crypto_seed"`
-	Tape       []int        `json:"tape"`
-	Labels     []vfDraw     `json:"tape_labels,omitempty"`
-	Minimised  bool         `json:"minimised"`
-	EventHash  string       `json:"event_hash"`
-	Trace      []string     `json:"trace"`
-	Toolchain  string       `json:"toolchain"`
-	Sample     interface{}  `json:"sample,omitempty"`
-	Known      []string     `json:"known_ids,omitempty"`
+	V          int         `json:"v"`
+	Property   string      `json:"property"`
+	RunProp    string      `json:"run_property"` // the driver that was running (monitors report under their own id)
+	Oracle     string      `json:"oracle"`
+	Key        string      `json:"key"`
+	Detail     string      `json:"detail"`
+	VerifSeed  uint64      `json:"verif_seed"`
+	RunIndex   uint64      `json:"run_index"`
+	Tier       string      `json:"tier"`
+	Variant    string      `json:"variant"`
+	CryptoSeed uint64      `json:"crypto_seed"`
+	Tape       []int       `json:"tape"`
+	Labels     []vfDraw    `json:"tape_labels,omitempty"`
+	Minimised  bool        `json:"minimised"`
+	EventHash  string      `json:"event_hash"`
+	Trace      []string    `json:"trace"`
+	Toolchain  string      `json:"toolchain"`
+	Sample     interface{} `json:"sample,omitempty"`
+	Known      []string    `json:"known_ids,omitempty"`
 }
 
 type vfKnownFinding struct {
